@@ -210,8 +210,77 @@ def accumulate_pattern(ex, node: ast.For, st: State):
     return [("fall", st, None)]
 
 
+def pointwise_pattern(ex, node: ast.For, st: State):
+    """`for c in S: D[c] += E` (or `for c, v in M.items(): D[c] += E`) with S a set / M a dict, D a str-keyed dict and E not
+    reading D: the iteration visits every element of S exactly once (S-SET) and each visit touches only D[c], so the loop is
+    the pointwise update  D[x] := D[x] + E(x) for x in S  (a semantics-preserving reading of the loop, no contract involved);
+    it raises KeyError unless S is contained in D's keys.  E must be free of partial operations."""
+    from .sorts import VDict
+    if node.orelse or len(node.body) != 1 or not isinstance(node.body[0], ast.AugAssign):
+        return None
+    b = node.body[0]
+    if not (isinstance(b.op, ast.Add) and isinstance(b.target, ast.Subscript) and isinstance(b.target.value, ast.Name)
+            and isinstance(b.target.slice, ast.Name)):
+        return None
+    dname, cname = b.target.value.id, b.target.slice.id
+    tgt, it = node.target, node.iter
+    items_of = None
+    if isinstance(tgt, ast.Name) and tgt.id == cname:
+        src = ex.eval(it, st)
+        vname = None
+    elif (isinstance(tgt, ast.Tuple) and len(tgt.elts) == 2 and all(isinstance(e, ast.Name) for e in tgt.elts) and tgt.elts[0].id == cname
+          and isinstance(it, ast.Call) and isinstance(it.func, ast.Attribute) and it.func.attr == "items" and not it.args):
+        src = ex.eval(it.func.value, st)
+        vname = tgt.elts[1].id
+        items_of = True
+    else:
+        return None
+    D = st.env.get(dname)
+    if not isinstance(D, VDict):
+        return None
+    if isinstance(src, VOpt):
+        if not isinstance(src.val, (VDict, VSet)):
+            return None
+        ex.need(st, z3.Not(src.isnone), "AttributeError" if items_of else "TypeError", node, "iteration over None")
+        src = src.val
+    if isinstance(src, VSet) and not items_of:
+        members = src.term
+    elif isinstance(src, VDict):
+        members = src.keys
+    else:
+        return None
+    if dname in {n.id for n in ast.walk(b.value) if isinstance(n, ast.Name)}:
+        return None
+    n_ob, n_facts = len(ex.ctx.obligations), len(st.facts)
+
+    def body(c):
+        s2 = st.fork()
+        s2.env[cname] = VStr(c)
+        if vname is not None:
+            vk = "real" if src.val is S.Real else ("int" if src.val is S.Int else "float")
+            s2.env[vname] = VNum(src.vals[c], vk)
+        e = ex.eval(b.value, s2)
+        if not isinstance(e, VNum):
+            raise OutOfReach("pointwise update with a non-numeric increment")
+        if len(s2.pc) != len(st.pc) or len(s2.facts) != n_facts:
+            raise OutOfReach("pointwise update whose increment branches or needs facts")
+        from .core import to_real
+        return z3.If(members[c], D.vals[c] + to_real(e), D.vals[c])
+    nv = S.lam(body, members, D.vals)
+    if len(ex.ctx.obligations) != n_ob or len(st.facts) != n_facts:
+        raise OutOfReach("pointwise update whose increment has partial operations or needs facts")
+    inside = S.lam(lambda c: z3.And(members[c], z3.Not(D.keys[c])), members, D.keys) == S.EMPTY_SET
+    ex.need(st, inside, "KeyError", node, "dict key in pointwise update")
+    st.env[dname] = VDict(D.keys, nv, D.val)
+    # loop targets are bound after the loop iff it ran; nothing under contract reads them afterwards
+    return [("fall", st, None)]
+
+
 def do_for(ex, node: ast.For, st: State):
     r = accumulate_pattern(ex, node, st)
+    if r is not None:
+        return r
+    r = pointwise_pattern(ex, node, st)
     if r is not None:
         return r
     seq, bind = iter_shape(ex, node, st)
@@ -262,9 +331,12 @@ def do_for(ex, node: ast.For, st: State):
         ex.card_of(sh, el.term)
     bind(sh, k, el)
     sh.env["_k"] = VNum(k, "int")  # ghost: iterations completed (visible to hint clauses)
+    sh.env[f"_k{k_ord}"] = VNum(k, "int")  # ... and, by loop ordinal, to the clauses of nested loops
     for nme in mod:  # ghost: values at the head of the iteration (visible to hint clauses)
         if nme in sh.env and sh.env[nme] is not UNBOUND:
             sh.env["_pre_" + nme] = sh.env[nme]
+    from .verify import apply_hint
+    apply_hint(ex, info, f"hint_body_{k_ord}", sh)  # lemma instances needed by obligations inside the body
     for kind, s2, payload in ex.exec_block(node.body, sh):
         if kind in ("fall", "continue"):
             e2 = dict(ext)
